@@ -159,6 +159,42 @@ func installStr(c *Ctx) {
 		arr.e = append(arr.e, cur)
 		return Slice{back: arr, len: len(arr.e), cap: len(arr.e)}
 	}
+	// sort.Slice / sort.SliceStable (their real bodies swap through reflect):
+	// insertion sort driven by the caller's less function. sort.Slice does not
+	// promise an order among elements that compare equal, so each tie is a free
+	// choice; SliceStable keeps the input order.
+	sortSlice := func(stable bool) func(c *Ctx, a []Value) Value {
+		return func(c *Ctx, a []Value) Value {
+			ifc, ok := a[0].(Iface)
+			if !ok {
+				c.errf("sort.Slice: unexpected argument %T", a[0])
+			}
+			sl, ok := ifc.v.(Slice)
+			if !ok {
+				c.errf("sort.Slice: not a slice: %T", ifc.v)
+			}
+			less := func(i, j int) bool {
+				r := c.invoke(a[1], []Value{BV(uint64(i), 64), BV(uint64(j), 64)}).(*Term)
+				return c.branch(r)
+			}
+			for i := 1; i < sl.len; i++ {
+				for j := i; j > 0; j-- {
+					move := less(j, j-1)
+					if !move && !stable && !less(j-1, j) {
+						move = c.chooseFree(2) == 1
+					}
+					if !move {
+						break
+					}
+					e := sl.back.e
+					e[sl.off+j], e[sl.off+j-1] = e[sl.off+j-1], e[sl.off+j]
+				}
+			}
+			return nil
+		}
+	}
+	in["sort.Slice"] = sortSlice(false)
+	in["sort.SliceStable"] = sortSlice(true)
 	in["internal/stringslite.Clone"] = func(c *Ctx, a []Value) Value { return a[0] }
 	in["strings.Clone"] = func(c *Ctx, a []Value) Value { return a[0] }
 	in["fmt.Sprintf"] = func(c *Ctx, a []Value) Value { return c.sprintf(a) }
